@@ -34,7 +34,7 @@ type SrvScenario struct {
 	Admin     []string   `json:"admin"`                // close | shutdown | cancel | close2 | shutdown2
 	Gates     []string   `json:"gates,omitempty"`      // backend steps that are scheduling points: enter read status return
 	Locks     bool       `json:"locks,omitempty"`      // Lock() calls are scheduling points
-	Plan      string     `json:"plan,omitempty"`       // backend behaviour: "" read all & accept | "noread" never reads (returns when the reader fails) | "statuses"
+	Plan      string     `json:"plan,omitempty"`       // backend behaviour: "" read all & accept | "noread" never reads (returns when the reader fails) | "statuses" | "earlyreturn" (LMTP: statuses, then return without reading)
 	Chunked   bool       `json:"chunked,omitempty"`    // every transfer of the scenario is chunked (BDAT)
 	ByContent bool       `json:"by_content,omitempty"` // the message's first line decides the verdict (accept…/reject…)
 	MaxBytes  int64      `json:"max_bytes,omitempty"`
@@ -140,6 +140,12 @@ func (w *srvWorld) Start(x *h.Exec) {
 	case "noread":
 		// a backend that does not read: it waits until told (gate) and returns what the reader then says
 		w.be.Plan = func(int) h.DataPlan { return h.DataPlan{Max: 0, KeepErr: true} }
+	case "earlyreturn":
+		// a per-recipient backend that reports every recipient and returns without reading the message: the server
+		// has to skip the rest of the message itself, before it goes back to reading commands
+		w.be.Plan = func(int) h.DataPlan {
+			return h.DataPlan{Max: 0, Status: []h.StatusCall{{Rcpt: "ok1@b.example", Err: h.RejErr("ok1")}, {Rcpt: "ok2@b.example", Err: nil}}}
+		}
 	case "statuses":
 		w.be.Plan = func(int) h.DataPlan {
 			return h.DataPlan{Max: -1, Status: []h.StatusCall{{Rcpt: "ok1@b.example", Err: nil}, {Rcpt: "ok2@b.example", Err: h.RejErr("ok2"), AfterRead: true}}}
@@ -265,7 +271,9 @@ func (w *srvWorld) Finish(x *h.Exec) *h.Finding {
 	// After Close has returned and everything that was in flight has settled, no accepted
 	// connection may still be open or served (checked BEFORE the harness hangs up itself).
 	for _, a := range w.admin {
-		if (a.name == "close" || a.name == "close2") && a.returned && a.err == nil {
+		// (a Close that reports some other error - a listener that could not be closed - has still won and must have
+		// closed every connection)
+		if (a.name == "close" || a.name == "close2") && a.returned && a.err != smtp.ErrServerClosed {
 			closeCalled, closeReturned = true, true
 		}
 	}
@@ -342,7 +350,7 @@ func (w *srvWorld) Finish(x *h.Exec) *h.Finding {
 			if a.err != nil && a.err != context.Canceled && !(w.lnClosedByApp && errors.Is(a.err, net.ErrClosed)) {
 				return h.F("c20-shutdown-result", "%s: Shutdown returned %v", desc, a.err)
 			}
-		} else if a.err != nil {
+		} else if a.err != nil && !(w.lnClosedByApp && errors.Is(a.err, net.ErrClosed)) {
 			return h.F("c20-close-result", "%s: Close returned %v", desc, a.err)
 		}
 	}
@@ -443,6 +451,7 @@ func c20Scenarios(tier string) []SrvScenario {
 	for _, tail := range [][]string{{"DATA\r\n", "msg\r\n.\r\n", "QUIT\r\n"}, {"DATA\r\n", "msg\r\n", "<EOF>"}, {"BDAT 4 LAST\r\nmsg\n", "QUIT\r\n"}} {
 		out = append(out, SrvScenario{Name: "F2-lmtp-" + strings.Fields(tail[0])[0] + "-" + strings.TrimSpace(strings.ReplaceAll(tail[len(tail)-1], "<EOF>", "disconnect")), LMTP: true, Accepts: []string{"conn"}, Clients: [][]string{append([]string{lm}, tail...)}, Admin: []string{"close"}, Gates: []string{"status", "return"}, Plan: "statuses"})
 	}
+	out = append(out, SrvScenario{Name: "F2-lmtp-DATA-backend-returns-early", LMTP: true, Accepts: []string{"conn"}, Clients: [][]string{{lm, "DATA\r\n", "line one\r\n", "NOOP\r\nline three\r\n", ".\r\n", "QUIT\r\n"}}, Admin: []string{"close"}, Gates: []string{"return"}, Plan: "earlyreturn"})
 	// F3: Shutdown with one or two active connections
 	out = append(out, SrvScenario{Name: "F3-shutdown-1conn-quit", Accepts: []string{"conn"}, Clients: [][]string{{"EHLO c.example\r\n", "QUIT\r\n"}}, Admin: []string{"shutdown", "close2"}})
 	out = append(out, SrvScenario{Name: "F3-shutdown-1conn-cancel", Accepts: []string{"conn"}, Clients: [][]string{{"EHLO c.example\r\n", "<EOF>"}}, Admin: []string{"shutdown", "cancel", "shutdown2"}})
@@ -450,6 +459,7 @@ func c20Scenarios(tier string) []SrvScenario {
 	out = append(out, SrvScenario{Name: "F3-close-then-shutdown", Accepts: []string{"conn"}, Clients: [][]string{{"EHLO c.example\r\n", "NOOP\r\n"}}, Admin: []string{"close", "shutdown2", "close2"}})
 	out = append(out, SrvScenario{Name: "F3-shutdown-mid-bdat", Accepts: []string{"conn"}, Clients: [][]string{{chunk, "BDAT 3 LAST\r\nabc", "QUIT\r\n"}}, Admin: []string{"shutdown", "cancel"}, Gates: []string{"return"}, Chunked: true})
 	// the application closes the listener itself, then shuts down with a connection still active
+	out = append(out, SrvScenario{Name: "F3-app-closed-listener-then-close", Accepts: []string{"conn"}, Clients: [][]string{{"EHLO c.example\r\n", "NOOP\r\n"}}, Admin: []string{"lnclose", "close"}})
 	out = append(out, SrvScenario{Name: "F3-app-closed-listener-then-shutdown", Accepts: []string{"conn"}, Clients: [][]string{{"EHLO c.example\r\n", "NOOP\r\n", "QUIT\r\n"}}, Admin: []string{"lnclose", "shutdown"}})
 	// two unfinished chunked transfers in a row on one connection
 	out = append(out, SrvScenario{Name: "F1-two-aborted-transfers", Accepts: []string{"conn"}, Clients: [][]string{{chunk, "RSET\r\n", "MAIL FROM:<ok@a.example>\r\nRCPT TO:<ok1@b.example>\r\nBDAT 5\r\nagain", "RSET\r\n", "QUIT\r\n"}}, Admin: []string{"close"}, Gates: []string{"return"}, Chunked: true})
@@ -628,7 +638,7 @@ func C20(tier string) int {
 	if tier == "thorough" {
 		lockBound, f7Bound = 3, 5
 	}
-	run.Rule = fmt.Sprintf("schedule exploration (testing/synctest bubbles, go-smtp built with channel-based mutexes via build overlay so that every blocked goroutine is visible): %d scenarios - F1 chunked transfer with a slow or non-reading backend followed by {RSET, LAST chunk, RSET+next transaction, QUIT, disconnect} with Server.Close fired at ANY point; F2 LMTP DATA/BDAT with a slow per-recipient backend + Close/disconnect; F3 Shutdown(ctx) with one/two connections and {QUIT, disconnect, ctx cancel, second Close/Shutdown}; F6 Close/Shutdown while the command loop is inside NewSession/Mail/Rcpt; F7 two connections mid-BDAT with Close/Shutdown (deviation-bounded); F8 LMTP two-chunk transfer with gated status calls + Close; F4 ALL sequences of <=%d Accept answers over {temporary error, connection, permanent error} with the virtual clock; events = Accept answers, client segments/disconnect, backend steps, admin calls, clock. F1-F4: ALL interleavings. F5: F1/F3/F4 representatives with every Lock() as an additional scheduling point, deviation (preemption) bound %d. states = scenarios, transitions = scheduling decisions, traces = executions of the real server. Oracle per execution: no goroutine left behind (runtime check at bubble exit), Serve returns (nil after Close/Shutdown, the permanent error otherwise, never on temporary errors), every accepted connection closed once Close has run, first Close/Shutdown returns nil / ctx error, later ones ErrServerClosed, one Logout per session and nothing after it, no recovered panic. The data-race clause is decided by free-running -race replays (see coverage.race).", len(scs), map[bool]int{true: 5, false: 4}[tier == "thorough"], lockBound)
+	run.Rule = fmt.Sprintf("schedule exploration (testing/synctest bubbles, go-smtp built with channel-based mutexes via build overlay so that every blocked goroutine is visible): %d scenarios - F1 chunked transfer with a slow or non-reading backend followed by {RSET, LAST chunk, RSET+next transaction, QUIT, disconnect} with Server.Close fired at ANY point; F2 LMTP DATA/BDAT with a slow per-recipient backend + Close/disconnect; F3 Shutdown(ctx) with one/two connections and {QUIT, disconnect, ctx cancel, second Close/Shutdown}, Close/Shutdown after the application closed the listener itself (the listener's Close then fails); F6 Close/Shutdown while the command loop is inside NewSession/Mail/Rcpt; F7 two connections mid-BDAT with Close/Shutdown (deviation-bounded); F8 LMTP two-chunk transfer with gated status calls + Close; F4 ALL sequences of <=%d Accept answers over {temporary error, connection, permanent error} with the virtual clock; events = Accept answers, client segments/disconnect, backend steps, admin calls, clock. F1-F4: ALL interleavings. F5: F1/F3/F4 representatives with every Lock() as an additional scheduling point, deviation (preemption) bound %d. states = scenarios, transitions = scheduling decisions, traces = executions of the real server. Oracle per execution: no goroutine left behind (runtime check at bubble exit), Serve returns (nil after Close/Shutdown, the permanent error otherwise, never on temporary errors), every accepted connection closed once Close has run, first Close/Shutdown returns nil / ctx error, later ones ErrServerClosed, one Logout per session and nothing after it, no recovered panic. The data-race clause is decided by free-running -race replays (see coverage.race).", len(scs), map[bool]int{true: 5, false: 4}[tier == "thorough"], lockBound)
 	run.Assumptions = []string{"stretches of execution between two scheduling points run under the Go scheduler; they are assumed to commute unless the race detector says otherwise", "admin events are generated only after Serve has called Accept once (C20 speaks about ending a running Serve)"}
 	h.ParallelFor(len(scs), func(i int) {
 		if run.Expired() {
